@@ -486,27 +486,44 @@ func confirmAlone(p Property, opt Options, desc any, limit time.Duration) bool {
 	}
 }
 
-// waitIdle polls /proc/loadavg until the 1-minute load average is below max (true) or the
-// time is up (false).  Without /proc/loadavg it reports idle.
+// waitIdle reports whether the machine is idle: either the 1-minute load average is below
+// max, or six consecutive one-second samples of the number of currently runnable tasks
+// (fourth field of /proc/loadavg) are all at most 2 (the load average takes minutes to
+// forget this run's own parallel phase; the instantaneous count does not).  It gives up
+// after limit (false).  Without /proc/loadavg it reports idle.
 func waitIdle(max float64, limit time.Duration) bool {
 	deadline := time.Now().Add(limit)
+	calm := 0
 	for {
 		b, err := os.ReadFile("/proc/loadavg")
 		if err != nil {
 			return true
 		}
 		f := strings.Fields(string(b))
-		if len(f) == 0 {
+		if len(f) < 4 {
 			return true
 		}
-		v, err := strconv.ParseFloat(f[0], 64)
-		if err != nil || v < max {
+		if v, err := strconv.ParseFloat(f[0], 64); err != nil || v < max {
 			return true
+		}
+		running := 99
+		if i := strings.IndexByte(f[3], '/'); i > 0 {
+			if n, err := strconv.Atoi(f[3][:i]); err == nil {
+				running = n
+			}
+		}
+		if running <= 2 {
+			calm++
+			if calm >= 6 {
+				return true
+			}
+		} else {
+			calm = 0
 		}
 		if time.Now().After(deadline) {
 			return false
 		}
-		time.Sleep(5 * time.Second)
+		time.Sleep(time.Second)
 	}
 }
 
